@@ -29,6 +29,7 @@ def run(chk):
     e3.run_L1(chk)
     e3.run_L4(chk)
     e3.run_V1(chk)
+    e3.run_I2(chk)
     # W1: who may write tensor state (shares C15-M5)
     from .c15 import scope_modules, rule_M5
     from ..core.alias import Engine
